@@ -3,13 +3,13 @@ CONSTANTS
   Threshold = 3
   MaxCount = 5
   GhostCap = 7
-  SeqNo = {"0", "1", "2"}
+  SeqNo = {"0", "1"}
   Tags = {"t1", "t2"}
   Fails = {"m", "v"}
   Codes = {0, 1}
   CodeOverride = FALSE
   SameFs = FALSE
-  TempRename = FALSE
+  TempRename = TRUE
   Memo = "off"
 INVARIANTS LTypeOK CurrentSeqFileIsThisPollsReport NoStaleHandlerText ReportedIsComputed TypeOK ErrorOnlyAfterSustainedFailure NeverErrorAfterSuccess TwoSuccessesGiveSuccess NoWedge
 CHECK_DEADLOCK TRUE
